@@ -39,6 +39,18 @@ class StringConcatViolation:
 
 
 # thailint: ignore-next-line[srp.violation] Uses small focused methods to reduce complexity
+def _walk_scope(scope: ast.AST) -> list[ast.AST]:
+    """Nodes of one scope: the subtree of `scope` without the bodies of nested functions."""
+    nodes: list[ast.AST] = []
+    stack = list(ast.iter_child_nodes(scope))
+    while stack:
+        node = stack.pop()
+        nodes.append(node)
+        if not isinstance(node, (ast.FunctionDef, ast.AsyncFunctionDef, ast.Lambda)):
+            stack.extend(ast.iter_child_nodes(node))
+    return nodes
+
+
 class PythonStringConcatAnalyzer:
     """Detects string concatenation in loops for Python code."""
 
@@ -75,7 +87,7 @@ class PythonStringConcatAnalyzer:
         Args:
             tree: AST to analyze
         """
-        for node in ast.walk(tree):
+        for node in _walk_scope(tree):
             self._process_assignment_node(node)
 
     def _process_assignment_node(self, node: ast.AST) -> None:
@@ -155,6 +167,10 @@ class PythonStringConcatAnalyzer:
         if reset_vars is None:
             reset_vars = set()
 
+        if isinstance(node, (ast.FunctionDef, ast.AsyncFunctionDef)):
+            self._find_concat_in_function(node, violations, in_loop, reset_vars)
+            return
+
         # When entering a new loop, find variables reset in its body
         loop_type = self._get_loop_type(node)
         current_loop: str | None
@@ -179,6 +195,29 @@ class PythonStringConcatAnalyzer:
 
         if entered_outermost_loop:
             self._outer_loop_line = 0
+
+    def _find_concat_in_function(
+        self,
+        node: ast.FunctionDef | ast.AsyncFunctionDef,
+        violations: list[StringConcatViolation],
+        in_loop: str | None,
+        reset_vars: set[str],
+    ) -> None:
+        """Analyze a function with the classification of ITS variables.
+
+        What a name is bound to in another function says nothing about this function's
+        variable of the same name; names the function does not bind keep the enclosing
+        classification.
+        """
+        outer = (self._string_variables, self._non_string_variables)
+        self._string_variables, self._non_string_variables = set(), set()
+        self._identify_string_variables(node)
+        local_strings, local_others = self._string_variables, self._non_string_variables
+        self._string_variables = local_strings | (outer[0] - local_others)
+        self._non_string_variables = local_others | (outer[1] - local_strings)
+        for child in ast.iter_child_nodes(node):
+            self._find_concat_in_loops(child, violations, in_loop, reset_vars)
+        self._string_variables, self._non_string_variables = outer
 
     def _get_loop_type(self, node: ast.AST) -> str | None:
         """Get the loop type if node is a loop, else None."""
